@@ -137,6 +137,12 @@ fn variant_name(dbg: &str) -> String {
     dbg.split(|c: char| c == '(' || c == ' ' || c == '{').next().unwrap_or("").to_string()
 }
 
+/// A stream must end: more items than the script has frames (plus a margin) means it does not.
+fn item_cap(peer: &Peer) -> usize {
+    let s = peer.0.lock().unwrap();
+    s.data.len() / 3 + 16
+}
+
 async fn drive<S>(req: Vec<u8>, peer: Peer) -> String
 where
     S: Sequence,
@@ -149,6 +155,7 @@ where
         Err(e) => return format!("request does not decode: {e:?}"),
     };
     let mut pt = PacketTransport { source: peer.clone() };
+    let cap = item_cap(&peer);
     let mut stream = S::into_stream(&input, &mut pt);
     let mut items = 0;
     loop {
@@ -163,7 +170,7 @@ where
             Some(Err(_)) => s.events.push(ev("y", "err", "", 0)),
         }
         items += 1;
-        if items > 10_000 {
+        if items > cap {
             return "stream does not end".into();
         }
     }
@@ -204,6 +211,7 @@ async fn drive_write_file(case: Value, peer: Peer) -> String {
     let block = case.get("block").and_then(|b| b.as_u64()).unwrap_or(1024) as u32;
     let password = case.get("password").and_then(|b| b.as_u64()).unwrap_or(123456) as usize;
     let mut pt = PacketTransport { source: peer.clone() };
+    let cap = item_cap(&peer);
     let mut stream = fs::WriteFile::into_stream(dir, password, block, &mut pt);
     let mut items = 0;
     loop {
@@ -218,7 +226,7 @@ async fn drive_write_file(case: Value, peer: Peer) -> String {
             Some(Err(_)) => s.events.push(ev("y", "err", "", 0)),
         }
         items += 1;
-        if items > 100_000 {
+        if items > cap {
             return "stream does not end".into();
         }
     }
